@@ -29,7 +29,11 @@ def expand_bfs(
     while len(current_level) > 0:
         for node in current_level:
             # Check if the size limit has been exceeded already.
-            if (size_limit is not None) and (len(sd) >= size_limit):
+            if (
+                (size_limit is not None)
+                and (len(sd) >= size_limit)
+                and not sd.node_data(node)["expanded"]
+            ):
                 # Size limit reached.
                 return False
 
